@@ -765,8 +765,13 @@ class Path:
         return _format_path(self.path_t.__ops__[1:], self.path_t.__ops__[0])
 
 
+class _TRun(list):
+    """a run of T steps inside a Path (not to be confused with a plain
+    segment that happens to be a list)"""
+
+
 def _format_path(t_path, root=None):
-    path_parts, cur_t_path = [], []
+    path_parts, cur_t_path = [], _TRun()
     i = 0
     while i < len(t_path):
         op, arg = t_path[i], t_path[i + 1]
@@ -774,7 +779,7 @@ def _format_path(t_path, root=None):
         if op == 'P':
             if cur_t_path:
                 path_parts.append(cur_t_path)
-                cur_t_path = []
+                cur_t_path = _TRun()
             path_parts.append(arg)
         else:
             cur_t_path.append(op)
@@ -785,10 +790,10 @@ def _format_path(t_path, root=None):
     if root is None:
         root = T
     if path_parts or not cur_t_path:
-        if root is not T and not (path_parts and type(path_parts[0]) is list):
-            path_parts.insert(0, [])  # keep the S / A root: Path(S, 'b')
+        if root is not T and not (path_parts and type(path_parts[0]) is _TRun):
+            path_parts.insert(0, _TRun())  # keep the S / A root: Path(S, 'b')
         return 'Path(%s)' % ', '.join([_format_t(part, root if i == 0 else T)
-                                       if type(part) is list else bbrepr(part)
+                                       if type(part) is _TRun else bbrepr(part)
                                        for i, part in enumerate(path_parts)])
     return _format_t(cur_t_path, root)
 
